@@ -40,7 +40,7 @@ def main(tier):
         run.extra["rejected_lines"] = len(bad)
         # ---- the acceptance predicate against MIT Kerberos' client on the same perturbations of the simulated KDC's replies (validates KDCReplyCheck)
         import mitcross
-        mr = mitcross.mit_reply_cross(wd)
+        mr = mitcross.spec_stage(run, mitcross.mit_reply_cross, wd)
         run.extra["kdcreplycheck_vs_mit_client"] = {k: v for k, v in mr.items() if k != "first"}
         if mr.get("disagreements"):
             vlib.spec_validation_problem(run, "KDCReplyCheck and MIT's client disagree on %d perturbed replies: %s" % (mr["disagreements"], mr["first"]))
